@@ -100,6 +100,7 @@ def main():
         "C03": "; Replace obligation also over closures (expression results, trailing side)",
         "C04": "; bracket-string adjacency (C01's O3 kernel) decides this property as well",
         "C06": "; collapse-guard kernel (C03's H) and require-grouping kernel (C12's G) with two-pass replays",
+        "C07": "; kernel T: format_if_expression hands each branch a bounded column width at most once per path (trial formats at usize::MAX; Shape methods executed)",
         "C08": "; format_code returns the printed AST untouched; sort_requires' ignore guard and region tracking (C12's kernels) decide this property as well",
         "C09": "; format_code returns the printed AST untouched; sort_requires' range guard (C12's kernel); visitor-shape kernel (Shape arithmetic executed: nested blocks of an out-of-range statement get block_indent + 1, offset 0)",
         "C10": "; format_token builds no white space from a literal",
